@@ -378,7 +378,7 @@ func legacyBytes(l legacy) ([]byte, bool) {
 	case "dropMapHeader":
 		doc = bytes.Replace(doc, []byte("MAPPED_LIBRARIES:"), nil, 1)
 		doc = bytes.Replace(doc, []byte("--- Memory map: ---"), nil, 1)
-	case "mapAnonHuge", "mapEmpty":
+	case "mapAnonHuge", "mapEmpty", "mapOddName":
 		// replace the memory map by one holding a single /anon_hugepage mapping, or nothing at all
 		for _, marker := range []string{"MAPPED_LIBRARIES:", "--- Memory map: ---"} {
 			if k := bytes.Index(doc, []byte(marker)); k >= 0 {
@@ -389,6 +389,12 @@ func legacyBytes(l legacy) ([]byte, bool) {
 			return nil, false
 		}
 		doc = append(append([]byte{}, doc...), []byte("\n--- Memory map: ---\n")...)
+		if l.Mut == "mapOddName" {
+			// an executable mapping whose file name is nothing but decoration, ahead of an ordinary one
+			names := []string{"(deleted)", "[", "(deleted)(deleted)", "[vdso] (deleted)", " (deleted) ", "[]", "(deleted) /x", "/", "//anon", "[stack:1]", "(deleted", "\t(deleted)"}
+			doc = append(doc, []byte("00400000-00401000 r-xp 00000000 00:00 0 "+names[l.Pos%len(names)]+"\n")...)
+			doc = append(doc, []byte("00500000-00600000 r-xp 00000000 00:00 0 /bin/x\n")...)
+		}
 		if l.Mut == "mapAnonHuge" {
 			names := []string{"/anon_hugepage (deleted)", "/anon_hugepage", "/anon_hugepagexyz"}
 			doc = append(doc, []byte("00400000-00500000 r-xp 00000000 00:00 0 "+names[l.Pos%3]+"\n")...)
